@@ -7,7 +7,7 @@ P=$1; K=$2; WT=/tmp/wt/$P; OUT=$WT/_out
 export GOFLAGS=-mod=mod GOPROXY=off GOSUMDB=off GOTOOLCHAIN=local; unset GOWORK
 cd $WT || exit 2
 git checkout -q -- . 
-DEMO=$(python3 -c "import json;print(json.load(open('$OUT/m$K.json'))['demo_cmd'])")
+DEMO=$(python3 -c "import json,re;print(re.sub(r'git apply [^&;]*(&&|;)','',json.load(open('$OUT/m$K.json'))['demo_cmd']))")
 RUNS=$(python3 -c "import json;print(json.load(open('$OUT/m$K.json')).get('demo_runs_in_sandbox'))")
 echo "== $P m$K demo_cmd: $DEMO"
 orig=skip; mut=skip; suite=skip
